@@ -1,3 +1,2 @@
+-- Root module intentionally minimal: `./check --setup` builds every Props/Cxx.lean and driver it finds.
 import Chain33Model.Base.Wire
-import Chain33Model.Model.C20
-import Chain33Model.Props.C20
